@@ -3,10 +3,11 @@ import PlinioVerif.Model.Checkpoint
 import PlinioVerif.Gen.Fields
 /-! Line driver for the C17 correspondence.
 
-`resume proto=<R|L> ops=[t,s:Class.field=3,m:0,...]`
+`resume proto=<R|L> ops=[t,s:Class.field=3,m:0,o,...] pre=[o,o]`
 runs the history on the checkpoint model over the *generated* field table (`t` = training step that
 changes every trainable field, `s:Class.field=v` = option call writing value id `v` (0 = constructor
-default), `m:b` = mode switch), resumes under protocol R or under the literal reading and answers
+default), `m:b` = mode switch, `o` = observer call (summary / str / export / cost / get_cost); `pre` =
+observer calls made on the fresh wrapper before loading), resumes under protocol R or under the literal reading and answers
 
 `keys=<ok|bad> diff=[Class.field,...] rec=<eq|ne> pers=<eq|ne> obs=<eq|ne>`
 
@@ -29,6 +30,7 @@ def kindStr : FClass → String
 
 def parseOp? (t : String) : Option (Op Nat Nat) :=
   if t = "t" then some (.train fun val f => val f + f + 1)
+  else if t = "o" then some .observe
   else if t.startsWith "m:" then (parseBool? (t.drop 2).toString).map .mode
   else if t.startsWith "s:" then
     match (t.drop 2).toString.splitOn "=" with
@@ -52,13 +54,15 @@ def handle (line : String) : String :=
     | some i => kindStr (σG.kind i) ++ (if σG.read i then " read" else " unread") ++ (if σG.late i then " late" else "")
     | none => "err:key"
   | some "resume" =>
-    match field? toks "proto", (field? toks "ops").bind (parseList? parseOp?) with
-    | some proto, some ops =>
+    match field? toks "proto", (field? toks "ops").bind (parseList? parseOp?),
+          ((field? toks "pre").getD "[]" |> parseList? parseOp?) with
+    | some proto, some ops, some pre =>
       let s := run σG initSt ops
-      let t := if proto = "R" then resumeR σG initSt ops s else resumeL σG initSt s
+      let fresh := run σG initSt pre
+      let t := if proto = "R" then resumeR σG fresh ops s else resumeL σG fresh s
       let all := List.range nF
       let sd := save σG s
-      let target := if proto = "R" then run σG initSt (cfgOf ops) else { initSt with training := s.training }
+      let target := if proto = "R" then run σG fresh (cfgOf ops) else { fresh with training := s.training }
       let keysOk := (missingKeys σG all sd target).isEmpty && (unexpectedKeys σG all sd target).isEmpty
       let diff := all.filter fun i => σG.kind i != .recomputed && t.val i != s.val i
       let sem := natSem nF
@@ -69,7 +73,7 @@ def handle (line : String) : String :=
       let obsEq := obs σG sem 3 t == obs σG sem 3 s
       let b := fun (x : Bool) => if x then "eq" else "ne"
       s!"keys={if keysOk then "ok" else "bad"} diff={showList qualName diff} rec={b recEq} pers={b persEq} obs={b obsEq}"
-    | _, _ => "bad-request"
+    | _, _, _ => "bad-request"
   | _ => "bad-request"
 
 def main : IO Unit := runDriver handle
